@@ -183,8 +183,12 @@ func runProp(def *propDef, tier, replay string) int {
 	}
 	extra := map[string]any{}
 	// positive controls: the primitives this property relies on must fire on their fixtures
-	fails := runFixtures(def.Fixtures)
-	extra["positive_controls"] = def.Fixtures
+	fx := append([]string{}, def.Fixtures...)
+	if _, ok := lockBalancedScope[def.ID]; ok {
+		fx = append(fx, "lockleak")
+	}
+	fails := runFixtures(fx)
+	extra["positive_controls"] = fx
 	extra["positive_control_failures"] = fails
 	selfFail := len(fails) > 0
 	for _, f := range fails {
